@@ -836,6 +836,14 @@ func (fr *frame) enterLoop(b *ssa.BasicBlock, li *loopInfo, st *State, phiIn fun
 			}
 		}
 	}
+	if !fr.isDiscovery {
+		for _, k := range li.mod {
+			if strings.HasPrefix(k, "E:") {
+				vc.noteSucc(k, st.heap.get(k), li.preHeap.get(k))
+				vc.noteSucc(k, st.heap.get(k), fr.entry.get(k))
+			}
+		}
+	}
 	if !fr.isDiscovery && fr.assignsOK != nil && !li.modAll {
 		// frame auto-invariant: locations alive at entry and outside the assigns
 		// clause still hold their entry values (every store is frame-checked)
